@@ -301,7 +301,7 @@ def handle (op : String) (args : List String) : Option String :=
     let a ← parseEnc [ver, asz, minlen, maxops, stmt, lbase, lrange]
     let prev ← parseRow prev
     let next ← parseRow next
-    let r : Out (Bytes × List WInstr) := do
+    let r : Out (Bytes × String) := do
       let p ← newProgram m a
       let p ← (setRow p prev).generateRow m
       -- the program is written after the first row: `write`'s own checks
@@ -309,8 +309,18 @@ def handle (op : String) (args : List String) : Option String :=
       let p := setRow p next
       let (is, _) ← generateRow m a.enc p.prevRow p.row
       let bs ← writeInstrs .little a.ver a.asz is
-      pure (bs, is)
-    pure (r.render fun (bs, is) => s!"{toHex bs} {instrsS a.ver is}")
+      -- the harness decodes these bytes with the real reader: here C04's reader Model decodes them,
+      -- under the header parsed back from the Model's own section
+      let p2 ← p.generateRow m
+      let (sec, _) ← p2.write .little m a.ver a.asz emptyTabs
+      let toks := match Line.program .little sec 0 a.asz none none with
+        | .ok hd =>
+          let (dec, e) := decodePrefix hd.p (bs.length + 1) bs
+          let ts := dec.map C04.instrS ++ (match e with | none => [] | some e => ["err:" ++ e.name])
+          if ts.isEmpty then "-" else ",".intercalate ts
+        | _ => "hdr-err"
+      pure (bs, toks)
+    pure (r.render fun (bs, toks) => s!"{toHex bs} {toks}")
   | "blk-wline", [m, ver, minlen, maxops, lbase, lrange, laLo, laHi, oaLo, oaHi] => do
     let m ← mode? m
     let a ← parseEnc [ver, "8", minlen, maxops, "1", lbase, lrange]
